@@ -84,6 +84,12 @@ CHECKS = {
         note="Partial: the Lean model covers the transaction/undo-log state machine; the fault enumeration over real operations is an exhaustive-per-boundary correspondence, not a theorem about SQLite or POSIX. Trusted: Lean kernel; harness and injector; SQLite transaction/SAVEPOINT semantics. Faults that the code swallows by design (ignore_errors=True in Datastore.trash/emptyTrash), after which the removal returns normally, are outside the property's 'removal that fails' clause and are reported as observations.",
         design="DESIGN.md §5 C07",
     ),
+    "C08": dict(
+        technique="Lean 4 proof (crash semantics of effect sequences over committed database + open transaction + files; every effect that passes its local guard preserves consistency; a disciplined sequence is consistent after every prefix, including the middle of a write) + effect traces recorded from the real code on every run and checked against the discipline by the model + physical replay of every crash point in forked processes compared with the model state + fresh-Butler oracle",
+        text="inv_apply (each of begin / commit / rollback / the eight table effects / file create, complete, rename, link, delete preserves RecsOK of the committed state and of the transaction's view under its local guard) and crash_consistent (for every disciplined effect sequence, every initial consistent state and every k, what a fresh process finds after the first k effects has a complete artifact for every dataset the datastore holds and no record naming a half-written file) are proved in Lean 4 for all sequences and states. The effect sequences of put, ingest_zip, ingest(copy/move), transfer_from, pruneDatasets(purge/unstore, also of one of two datasets sharing a file), removeRuns and emptyTrash are recorded from the running code (SQLAlchemy cursor/commit/rollback events with parameters; write/copy/rename/link/remove under lsst.resources), must satisfy the discipline, and every crash point (before each event and in the middle of each write/copy) is replayed in a forked child that dies there; the tables (read with sqlite3) and files found afterwards are compared with the model, and a fresh Butler must read every non-target, see interrupted insertions all-or-nothing, find no half-written file under a final name, and complete the removal on re-run.",
+        note="Trusted: Lean kernel; the recorder (crashhooks) and the event-to-effect translation; SQLite durability of committed transactions and loss of open ones at process death; atomic os.rename/os.link. Process death is simulated by os._exit at Python-level boundaries: power loss with unsynced pages and deaths inside a single SQL statement or write syscall are not reachable. A crash between emptyTrash's two row deletions leaves a dataset_location_trash row without records, which later emptyings ignore (observation, no effect on the property).",
+        design="DESIGN.md §5 C08",
+    ),
     "C09": dict(
         technique="Lean 4 proof (invariants of the records / location / trash tables and the datastore root preserved by every operation, by induction over histories; safety, precision and no-leak theorems for emptyTrash with the bridge's preserved set and the fragment recount; shape theorem for normpath and containment of every accepted templated path) + history correspondence on a real Butler inside a sentinel area + hostile-name correspondence of FileTemplate.format / Location + reference-set oracle",
         text="emptyTrash_keeps_referenced (an artifact that a still-stored dataset refers to is never removed, for plain shared files, zip members and direct ingests mixed in one trash), emptyTrash_only_removes_trashed, emptyTrash_removes_unreferenced, ext_untouched, inv_store / inv_trash / inv_emptyTrash / inv_history and stored_artifacts_present (after every history every stored dataset has its owned artifacts on disk) are proved in Lean 4 for all states and histories; Path.normComps_shape (normpath yields '..'* followed by ordinary names), Path.accepted_is_contained (a path the datastore accepts has no '..', '.' or empty component, whatever the run, data-ID and dataset-type strings) and Path.refused_escapes are proved for all strings. The models are compared with a real Butler on seeded histories of put / ingest(copy, move, direct, shared) / ingest_zip / prune(unstore, purge) / Datastore.trash / emptyTrash / removeRuns with a recursive content listing of the root and of the sentinel area after every step and a get of every stored dataset, and on hostile run names and data-ID strings through put, ingest, get and prune.",
